@@ -203,6 +203,39 @@ func exec(line string) hx.Result {
 	if len(d.VerifDump()) != nodes {
 		viol = append(viol, hx.Fail("C12:node-count", "numberOfNodes %d but %d nodes reachable", nodes, len(d.VerifDump())))
 	}
+	// oracle: numWords of every reachable node is the size of its right language
+	dump := d.VerifDump()
+	sizes := make([]int, len(dump))
+	for i := range sizes {
+		sizes[i] = -1
+	}
+	var langSize func(i int) int
+	langSize = func(i int) int {
+		if sizes[i] >= 0 {
+			return sizes[i]
+		}
+		n := 0
+		if dump[i].Final {
+			n = 1
+		}
+		for _, k := range dump[i].KidIdx {
+			n += langSize(k)
+		}
+		sizes[i] = n
+		return n
+	}
+	for i, n := range dump {
+		if n.NumWords != langSize(i) {
+			viol = append(viol, hx.Fail("C12:numwords-node", "node %d (id %d): numWords %d, right language has %d words", i, n.ID, n.NumWords, langSize(i)))
+			break
+		}
+		if langSize(i) == 0 {
+			if i != 0 || len(dump) != 1 {
+				viol = append(viol, hx.Fail("C12:dead-node", "node %d (id %d) accepts nothing", i, n.ID))
+				break
+			}
+		}
+	}
 	// oracle: rejected additions do not change what is built
 	if d2, err2 := dawg.New(accepted); err2 != nil {
 		viol = append(viol, hx.Fail("C12:new-error", "New on the accepted words failed: %v", err2))
